@@ -314,7 +314,7 @@ def run(ctx):
     results = []
     with cf.ThreadPoolExecutor(max_workers=4) as ex:
         futs = [ex.submit(cli_case_confirmed, ctx, i, s) for i, s in enumerate(seeds)]
-        futs += [ex.submit(ff_timing_case, ctx, i, w) for i, w in enumerate((1, 2) if quick else (1, 2, 3, 4))]
+        futs += [ex.submit(W.confirmed, ff_timing_case, ctx, i, w) for i, w in enumerate((1, 2) if quick else (1, 2, 3, 4))]
         futs += [ex.submit(ff_queue_case, ctx, i, 1 + i % 2, rng.randrange(1 << 30)) for i in range(2 if quick else 8)]
         for f in futs:
             results.append(f.result())
